@@ -97,6 +97,10 @@ MATRIX = {
     "use-before-def": ("res / on get -> <a>;\nlet a = {};\n", 0),
     "function-ok": ("let f x = [x];\nres / on get -> <f num>;\n", 0),
     "arity-mismatch": ("let f x = [x];\nres / on get -> <f num num>;\n", 1),
+    "arity-extra-argument-use-first": ("let a = f num str;\nlet f x = [x];\nres / on get -> <a>;\n", 1),
+    "arity-extra-argument-declaration-first": ("let f x = [x];\nlet a = f num str;\nres / on get -> <a>;\n", 1),
+    "arity-missing-argument-use-first": ("let a = f num;\nlet f x y = x & y;\nres / on get -> <a>;\n", 1),
+    "arity-missing-argument-declaration-first": ("let f x y = x & y;\nlet a = f num;\nres / on get -> <a>;\n", 1),
     "binding-mismatch": ("let f x = x & {};\nlet a = f {};\nlet b = f \"t\";\nres / on get -> <a>;\n", 1),
     "property-payload-mismatch": ("let p = 'id {};\nres /{ p } on get -> <{}>;\n", 1),
     "kind-mismatch": ("let a = num & {};\nres / on get -> <a>;\n", 1),
